@@ -144,7 +144,7 @@ func parseOp(line string) (op, bool) {
 		o.n, _ = strconv.Atoi(f[2])
 		o.pat, _ = strconv.Atoi(f[3])
 		o.off, _ = strconv.Atoi(f[4])
-		if o.rfKind != "p" && o.rfKind != "f" && o.rfKind != "l" {
+		if o.rfKind != "p" && o.rfKind != "f" && o.rfKind != "l" && o.rfKind != "m" {
 			return bad()
 		}
 	default:
@@ -475,6 +475,8 @@ func run(cfg caseCfg, ops []op, tr *track.Tracker, lg *nullLogger) *runOut {
 					switch o.rfKind {
 					case "p":
 						rd = &plainReader{r: bytes.NewReader(content[o.off : o.off+o.n])}
+					case "m": // io.LimitedReader over in-memory content that continues after the limit (ServeContent Range on a bytes.Reader)
+						rd = &io.LimitedReader{R: &plainReader{r: bytes.NewReader(content[o.off:])}, N: int64(o.n)}
 					case "f", "l":
 						f = tempFile(content[:o.off+o.n+map[string]int{"f": 0, "l": 37}[o.rfKind]])
 						f.Seek(int64(o.off), io.SeekStart)
